@@ -17,9 +17,11 @@ EXTENDS World, Json
 CONSTANTS Family,      \* operation family (string)
           MaxTok,      \* element tokens 0..MaxTok
           MaxLen,      \* receivers are explored up to this length
-          MaxLit       \* operand literals up to this length
+          MaxLit,      \* operand literals up to this length
+          MaxFuel      \* bound on the number of "costly" steps (families alias*)
 
-VARIABLES world
+VARIABLES world,
+          fuel         \* exploration budget; not part of the specified system
 
 Toks == 0..MaxTok
 SeqsUpTo(S, n) == UNION {[1..k -> S] : k \in 0..n}
@@ -27,11 +29,16 @@ Lits == SeqsUpTo(Toks, MaxLit)
 Idx(n) == (-(n + 1))..(n + 1)       \* every valid index, zero, first invalid on both sides
 Slots(n) == 0..(n + 1)
 Pairs == {<<k, v>> : k \in Toks, v \in 0..1}
-PairLits == SeqsUpTo(Pairs, MaxLit)
+PairLits == SeqsUpTo(Pairs, MaxLit)                       \* for Go maps (structure)
+CodeLits == SeqsUpTo({ACode(k, v) : k \in Toks, v \in 0..1}, MaxLit)   \* association tokens
 
 E(k, m, self, args, ec) == [k |-> k, m |-> m, self |-> self, args |-> args, ec |-> ec]
 
-Small(w) == \A i \in 1..Len(w) : Len(w[i].s) <= MaxLen
+Small(w) == Family \in {"stack", "queueseq"} \/ \A i \in 1..Len(w) : Len(w[i].s) <= MaxLen
+
+\* arrays around and beyond the default capacity (16) of stacks and queues
+Pattern(n) == [i \in 1..n |-> i % 3]
+BigLens == {DefaultCap - 1, DefaultCap, DefaultCap + 1, 2 * DefaultCap + 1}
 
 ----------------------------------------------------------------------------
 (* Method events on receiver id with n elements; operands from Ops (ids).   *)
@@ -97,17 +104,18 @@ EventsList(w) ==
       [] OTHER -> {}
 
 ----------------------------------------------------------------------------
-(* Family "iter" (C17): object 1 is a List, object 2.. iterators over it;   *)
-(* moves on two iterators interleaved with mutations of the source.         *)
+(* Family "iter" (C17): object 1 is a List whose i-th value is token i-1   *)
+(* (so the first value coincides with the zero value), objects 2 and 3 are  *)
+(* iterators over it; every move on either iterator interleaved with        *)
+(* mutations of the source.                                                 *)
 
 EventsIter(w) ==
     CASE Len(w) = 0 -> {E("List", "Make", 0, <<>>, "V")}
-      [] Len(w) = 1 -> {E("List", "AppendValue", 1, <<t>>, "") : t \in Toks} \cup {E("List", "GetIterator", 1, <<>>, "")}
+      [] Len(w) = 1 -> {E("List", "AppendValue", 1, <<Len(w[1].s)>>, "")} \cup {E("List", "GetIterator", 1, <<>>, "")}
       [] Len(w) \in {2, 3} ->
             UNION {IterEv(i, Len(w[i].s)) : i \in 2..Len(w)} \cup
-            {E("List", "AppendValue", 1, <<t>>, "") : t \in {0}} \cup
-            {E("List", m, 1, <<>>, "") : m \in {"RemoveAll", "ReverseValues"}} \cup
-            {E("List", "RemoveValue", 1, <<1>>, ""), E("List", "SetValue", 1, <<1, MaxTok>>, "")} \cup
+            {E("List", "RemoveAll", 1, <<>>, ""), E("List", "RemoveValue", 1, <<1>>, ""),
+             E("List", "SetValue", 1, <<1, MaxTok + 1>>, "")} \cup
             (IF Len(w) = 2 THEN {E("List", "GetIterator", 1, <<>>, "")} ELSE {})
       [] OTHER -> {}
 
@@ -157,47 +165,61 @@ EventsAlgebra(w) ==
 EventsStack(w) ==
     CASE Len(w) = 0 -> {E("Stack", "Make", 0, <<>>, "V")} \cup
                        {E("Stack", "MakeWithCapacity", 0, <<c>>, "V") : c \in 0..MaxLen} \cup
-                       {E("GoArray", "New", 0, <<l>>, "V") : l \in SeqsUpTo({1, 2}, MaxLen)}
+                       {E("GoArray", "New", 0, <<l>>, "V") : l \in SeqsUpTo({1, 2}, MaxLen) \cup {Pattern(n) : n \in BigLens}}
       [] Len(w) = 1 /\ w[1].kind = "GoArray" ->
             {E("Stack", "MakeFromArray", 0, <<1>>, "V"), E("List", "MakeFromArray", 0, <<1>>, "V")}
       [] Len(w) = 2 /\ w[2].kind = "List" -> {E("Stack", "MakeFromSequence", 0, <<2>>, "V")}
       [] w[Len(w)].kind = "Stack" /\ Len(w) <= 3 ->
-            LET id == Len(w) IN
+            LET id == Len(w)  n == Len(w[id].s) IN
             SeqReadEv("Stack", id) \cup
-            {E("Stack", "AddValue", id, <<t>>, "") : t \in Toks} \cup
-            {E("Stack", m, id, <<>>, "") : m \in {"RemoveTop", "RemoveAll", "GetCapacity"}}
+            \* small stacks: every token; stacks around the default capacity: one
+            \* token and pops only from the full side (keeps the graph linear there)
+            (IF n < MaxLen THEN {E("Stack", "AddValue", id, <<t>>, "") : t \in Toks}
+             ELSE IF n >= DefaultCap - 1 THEN {E("Stack", "AddValue", id, <<0>>, "")} ELSE {}) \cup
+            (IF n <= MaxLen \/ n >= DefaultCap THEN {E("Stack", "RemoveTop", id, <<>>, "")} ELSE {}) \cup
+            {E("Stack", m, id, <<>>, "") : m \in {"RemoveAll", "GetCapacity"}}
       [] OTHER -> {}
 
 ----------------------------------------------------------------------------
 (* Families "catalog" (C03) and "map" (C14): object 1 is the receiver;      *)
 (* key sequences are lists made from Go array literals of keys.             *)
 
-AssocUnary(k, w) ==
-    {E(k, m, 1, <<>>, "") : m \in {"AsArray", "GetIterator", "GetSize", "IsEmpty", "GetKeys", "RemoveAll"}} \cup
-    {E(k, m, 1, <<t>>, "") : m \in {"GetValue", "RemoveValue"}, t \in Toks} \cup
-    {E(k, "SetValue", 1, <<t, v>>, "") : t \in Toks, v \in 0..1} \cup
-    (IF k = "Catalog"
-     THEN {E(k, m, 1, <<>>, "") : m \in {"SortValues", "ReverseValues", "ShuffleValues"}} \cup
-          {E(k, "SortValuesWithRanker", 1, <<r>>, "") : r \in Rankers}
-     ELSE {})
+\* object 1 is a Go array literal of keys, object 2 the key list made from it;
+\* the receiver is the last object once it is of kind k
+AssocUnaryAt(k, r) ==
+    {E(k, m, r, <<>>, "") : m \in {"AsArray", "GetIterator", "GetSize", "IsEmpty", "GetKeys"}} \cup
+    {E(k, "GetValue", r, <<t>>, "") : t \in Toks} \cup
+    \* the full mutation graph is explored on the receiver made by Make (object 3);
+    \* receivers built by the other constructors are only read
+    (IF r # 3 THEN {} ELSE
+     {E(k, "RemoveAll", r, <<>>, "")} \cup
+     {E(k, "RemoveValue", r, <<t>>, "") : t \in Toks} \cup
+     {E(k, "SetValue", r, <<t, v>>, "") : t \in Toks, v \in 0..1} \cup
+     (IF k = "Catalog"
+      THEN {E(k, m, r, <<>>, "") : m \in {"SortValues", "ReverseValues", "ShuffleValues"}} \cup
+           {E(k, "SortValuesWithRanker", r, <<x>>, "") : x \in Rankers} \cup
+           (IF Family = "catalogfn" THEN {E("Catalog", "Merge", 0, <<r, r>>, "A")} ELSE {})
+      ELSE {}))
 
-AssocBinary(k, w) ==
-    {E(k, m, 1, <<3>>, "") : m \in {"GetValues", "RemoveValues"}} \cup
-    (IF k = "Catalog" THEN {E("Catalog", "Extract", 0, <<1, 3>>, "A")} ELSE {})
+AssocBinaryAt(k, r) ==
+    {E(k, m, r, <<2>>, "") : m \in {"GetValues", "RemoveValues"}} \cup
+    (IF Family = "catalogfn" THEN {E("Catalog", "Extract", 0, <<r, 2>>, "A")} ELSE {})
 
 EventsAssoc(k, w) ==
-    CASE Len(w) = 0 -> {E(k, "Make", 0, <<>>, "A")} \cup
-                       {E("GoArray", "New", 0, <<l>>, "A") : l \in PairLits} \cup
-                       {E("GoMap", "New", 0, <<l>>, "") : l \in PairLits}
-      [] Len(w) = 1 /\ w[1].kind = "GoArray" ->
-            {E(k, "MakeFromArray", 0, <<1>>, "A"), E("Array", "MakeFromArray", 0, <<1>>, "A")}
-      [] Len(w) = 2 /\ w[1].kind = "GoArray" /\ w[2].kind = "Array" -> {E(k, "MakeFromSequence", 0, <<2>>, "A")}
-      [] Len(w) = 1 /\ w[1].kind = "GoMap" -> {E(k, "MakeFromMap", 0, <<1>>, "A")}
-      [] Len(w) = 1 -> AssocUnary(k, w) \cup {E("GoArray", "New", 0, <<l>>, "K") : l \in Lits} \cup
-                       (IF k = "Catalog" THEN {E("Catalog", "Merge", 0, <<1, 1>>, "A")} ELSE {})
-      [] Len(w) = 2 /\ w[1].kind = k /\ w[2].kind = "GoArray" /\ Len(w[2].s) <= MaxLit ->
-            {E("List", "MakeFromArray", 0, <<2>>, "K")}
-      [] Len(w) = 3 /\ w[1].kind = k /\ w[3].kind = "List" -> AssocBinary(k, w)
+    CASE Len(w) = 0 -> {E("GoArray", "New", 0, <<l>>, "K") : l \in Lits}
+      [] Len(w) = 1 -> {E("List", "MakeFromArray", 0, <<1>>, "K")}
+      [] Len(w) = 2 -> {E(k, "Make", 0, <<>>, "A")} \cup
+                       (IF w[1].s = <<>> THEN {E("GoArray", "New", 0, <<l>>, "A") : l \in CodeLits} \cup
+                                              {E("GoMap", "New", 0, <<l>>, "") : l \in PairLits}
+                        ELSE {})
+      [] \/ Len(w) = 3 /\ w[3].kind = k
+         \/ Len(w) = 4 /\ w[3].kind \in {"GoArray", "GoMap"} /\ w[4].kind = k
+         \/ Len(w) = 5 /\ w[3].kind = "GoArray" /\ w[4].kind = "Array" /\ w[5].kind = k ->
+            AssocBinaryAt(k, Len(w)) \cup (IF w[1].s = <<>> THEN AssocUnaryAt(k, Len(w)) ELSE {})
+      [] Len(w) = 3 /\ w[3].kind = "GoArray" ->
+            {E(k, "MakeFromArray", 0, <<3>>, "A"), E("Array", "MakeFromArray", 0, <<3>>, "A")}
+      [] Len(w) = 4 /\ w[3].kind = "GoArray" /\ w[4].kind = "Array" -> {E(k, "MakeFromSequence", 0, <<4>>, "A")}
+      [] Len(w) = 3 /\ w[3].kind = "GoMap" -> {E(k, "MakeFromMap", 0, <<3>>, "A")}
       [] OTHER -> {}
 
 ----------------------------------------------------------------------------
@@ -211,45 +233,159 @@ EventsMerge(w) ==
                        {E("Catalog", "Merge", 0, <<a, b>>, "A") : a \in {1, 2}, b \in {1, 2}}
       [] OTHER -> {}
 
+\* one change to the result or an operand: nothing else may change (costly)
+MergeMut(w) ==
+    IF Len(w) # 3 THEN {}
+    ELSE UNION {{E("Catalog", "SetValue", i, <<w[i].s[1][1], 2>>, ""),
+                 E("Catalog", "RemoveValue", i, <<w[i].s[1][1]>>, "")} : i \in {j \in 1..3 : w[j].s # <<>>}}
+
+----------------------------------------------------------------------------
+(* Family "concat" (C16): two lists grown by AppendValue; Concatenate on    *)
+(* every ordered pair including the aliased ones; then one change to the    *)
+(* result or an operand (purity is World's frame condition).                *)
+
+EventsConcat(w) ==
+    CASE Len(w) = 0 -> {E("List", "Make", 0, <<>>, "V")}
+      [] Len(w) = 1 -> {E("List", "AppendValue", 1, <<t>>, "") : t \in Toks} \cup {E("List", "Make", 0, <<>>, "V")}
+      [] Len(w) = 2 -> {E("List", "AppendValue", 2, <<t>>, "") : t \in Toks} \cup
+                       {E("List", "Concatenate", 0, <<a, b>>, "V") : a \in {1, 2}, b \in {1, 2}}
+      [] OTHER -> {}
+
+ConcatMut(w) ==
+    IF Len(w) # 3 THEN {}
+    ELSE {E("List", "SetValue", i, <<1, MaxTok + 1>>, "") : i \in {j \in 1..3 : w[j].s # <<>>}} \cup
+         {E("List", "AppendValue", i, <<MaxTok + 1>>, "") : i \in 1..3}
+
 ----------------------------------------------------------------------------
 (* Family "queueseq": the quiescent fragment of the queue (C17/C18/C20).    *)
 
+QueueEvAt(w, id) ==
+    LET o == w[id]  n == Len(o.s) IN
+    SeqReadEv("Queue", id) \cup {E("Queue", "GetCapacity", id, <<>>, "")} \cup
+    (IF ~o.closed /\ n < o.cap /\ n < MaxLen THEN {E("Queue", "AddValue", id, <<t>>, "") : t \in Toks}
+     ELSE IF ~o.closed /\ n < o.cap /\ n >= DefaultCap - 1 THEN {E("Queue", "AddValue", id, <<0>>, "")} ELSE {}) \cup
+    (IF (o.s # <<>> /\ (n <= MaxLen \/ n >= DefaultCap)) \/ (o.s = <<>> /\ o.closed)
+     THEN {E("Queue", "RemoveHead", id, <<>>, "")} ELSE {}) \cup
+    (IF ~o.closed THEN {E("Queue", "CloseQueue", id, <<>>, ""), E("Queue", "RemoveAll", id, <<>>, "")} ELSE {})
+
 EventsQueueSeq(w) ==
     CASE Len(w) = 0 -> {E("Queue", "Make", 0, <<>>, "V")} \cup
-                       {E("Queue", "MakeWithCapacity", 0, <<c>>, "V") : c \in 0..MaxLen}
-      [] Len(w) = 1 ->
-            LET o == w[1] IN
-            SeqReadEv("Queue", 1) \cup {E("Queue", "GetCapacity", 1, <<>>, "")} \cup
-            (IF ~o.closed /\ Len(o.s) < o.cap /\ Len(o.s) < MaxLen
-             THEN {E("Queue", "AddValue", 1, <<t>>, "") : t \in Toks} ELSE {}) \cup
-            (IF o.s # <<>> \/ o.closed THEN {E("Queue", "RemoveHead", 1, <<>>, "")} ELSE {}) \cup
-            (IF ~o.closed THEN {E("Queue", "CloseQueue", 1, <<>>, ""), E("Queue", "RemoveAll", 1, <<>>, "")} ELSE {})
+                       {E("Queue", "MakeWithCapacity", 0, <<c>>, "V") : c \in 0..MaxLen} \cup
+                       {E("GoArray", "New", 0, <<l>>, "V") : l \in SeqsUpTo({1, 2}, MaxLit) \cup {Pattern(n) : n \in BigLens}}
+      [] Len(w) = 1 /\ w[1].kind = "GoArray" ->
+            {E("Queue", "MakeFromArray", 0, <<1>>, "V"), E("List", "MakeFromArray", 0, <<1>>, "V")}
+      [] Len(w) = 2 /\ w[2].kind = "List" -> {E("Queue", "MakeFromSequence", 0, <<2>>, "V")}
+      [] w[Len(w)].kind = "Queue" /\ Len(w) <= 3 -> QueueEvAt(w, Len(w))
       [] OTHER -> {}
 
 ----------------------------------------------------------------------------
+(* Family "alias" (C18): a caller-owned Go array or map is passed to every  *)
+(* constructor; every view / derived sequence is taken from the result;     *)
+(* then each of the objects is changed in turn.  World.tla's frame          *)
+(* condition (every other object unchanged) is what detects shared storage. *)
 
-Events(w) ==
-    CASE Family = "list"     -> EventsList(w)
-      [] Family = "iter"     -> EventsIter(w)
-      [] Family = "set"      -> EventsSet(w)
-      [] Family = "algebra"  -> EventsAlgebra(w)
-      [] Family = "stack"    -> EventsStack(w)
-      [] Family = "catalog"  -> EventsAssoc("Catalog", w)
-      [] Family = "map"      -> EventsAssoc("Map", w)
-      [] Family = "merge"    -> EventsMerge(w)
-      [] Family = "queueseq" -> EventsQueueSeq(w)
+Fresh == MaxTok + 1
+\* events that consume exploration fuel are marked by ec = "$" .. no: by a wrapper set
+Costly(S) == {[e EXCEPT !.ec = "$" \o e.ec] : e \in S}
+FreshOf(cls) == IF cls = "A" THEN ACode(Fresh, 1) ELSE Fresh
 
-Init == world = <<>>
+\* one-step changes of object id whose elements are of class cls
+MutEv(w, id, cls) ==
+    LET k == w[id].kind  n == Len(w[id].s)  F == FreshOf(cls) IN
+    CASE k = "List" -> {E(k, "SetValue", id, <<1, F>>, ""), E(k, "InsertValue", id, <<0, F>>, "")} \cup
+                       {E(k, "AppendValue", id, <<F>>, "")} \cup
+                       {E(k, m, id, <<>>, "") : m \in (IF cls = "A" THEN {"ReverseValues"} ELSE {"ReverseValues", "SortValues"})} \cup
+                       {E(k, "RemoveValue", id, <<1>>, "")}
+      [] k = "Array" -> {E(k, "SetValue", id, <<-1, F>>, "")} \cup
+                        {E(k, m, id, <<>>, "") : m \in (IF cls = "A" THEN {"ReverseValues"} ELSE {"ReverseValues", "SortValues"})}
+      [] k = "Seq" -> {E(k, "SetValue", id, <<1, F>>, "")}
+      [] k = "Set" -> {E(k, "AddValue", id, <<F>>, "")} \cup {E(k, "RemoveAll", id, <<>>, "")} \cup
+                      (IF n > 0 THEN {E(k, "RemoveValue", id, <<w[id].s[1]>>, "")} ELSE {})
+      [] k = "Stack" -> (IF n < w[id].cap THEN {E(k, "AddValue", id, <<F>>, "")} ELSE {}) \cup
+                        {E(k, "RemoveTop", id, <<>>, "")}
+      [] k = "Queue" -> (IF n < w[id].cap THEN {E(k, "AddValue", id, <<F>>, "")} ELSE {}) \cup
+                        (IF n > 0 THEN {E(k, "RemoveHead", id, <<>>, "")} ELSE {})
+      [] k = "GoArray" -> {E(k, "Poke", id, <<p, F>>, "") : p \in 1..n}
+      [] k \in {"Catalog", "Map"} ->
+            {E(k, "SetValue", id, <<Fresh, 1>>, "")} \cup {E(k, "RemoveAll", id, <<>>, "")} \cup
+            (IF n > 0 THEN {E(k, "SetValue", id, <<w[id].s[1][1], 1 - w[id].s[1][2]>>, "")} \cup
+                           {E(k, "RemoveValue", id, <<w[id].s[1][1]>>, "")} ELSE {})
+      [] k = "GoMap" -> {E(k, "Poke", id, <<Fresh, 1>>, "")} \cup
+                        (IF n > 0 THEN {E(k, "Poke", id, <<w[id].s[1][1], 1 - w[id].s[1][2]>>, "")} \cup
+                                       {E(k, "Delete", id, <<w[id].s[1][1]>>, "")} ELSE {})
+      [] OTHER -> {}
+
+ValueKinds == {"List", "Array", "Set", "Stack", "Queue"}
+
+DeriveEv(w, id, cls) ==
+    LET k == w[id].kind  n == Len(w[id].s) IN
+    {E(k, m, id, <<>>, "") : m \in {"AsArray", "GetIterator"}} \cup
+    (IF k \in {"List", "Array", "Set"} /\ n > 0
+     THEN {E(k, "GetValues", id, <<1, -1>>, ""), E(k, "GetValues", id, <<1, 1>>, "")} ELSE {}) \cup
+    (IF k = "List" /\ n > 0 THEN {E(k, "RemoveValues", id, <<1, -1>>, "")} ELSE {}) \cup
+    (IF k \in ValueKinds
+     THEN {E(kk, "MakeFromSequence", 0, <<id>>, cls) : kk \in (IF cls = "A" THEN {"List", "Array"} ELSE ValueKinds)}
+     ELSE {}) \cup
+    (IF k \in {"Catalog", "Map"}
+     THEN {E(k, "GetKeys", id, <<>>, "")} \cup
+          \* a Map enumerates in an unspecified order: only order-insensitive consumers
+          {E(kk, "MakeFromSequence", 0, <<id>>, "A") : kk \in (IF k = "Map" THEN {"Map"} ELSE {"Catalog", "Map", "List", "Array"})}
+     ELSE {})
+
+\* "alias": element class V throughout
+EvSetsAlias(w) ==
+    CASE Len(w) = 0 -> << {E("GoArray", "New", 0, <<l>>, "V") : l \in {<<>>, <<1>>, <<2, 0, 1>>}} >>
+      [] Len(w) = 1 -> << {E(kk, "MakeFromArray", 0, <<1>>, "V") : kk \in ValueKinds} >>
+      [] Len(w) = 2 -> << Costly(MutEv(w, 1, "V")), Costly(MutEv(w, 2, "V")), DeriveEv(w, 2, "V") >>
+      [] Len(w) = 3 -> << Costly(MutEv(w, 1, "V")), Costly(MutEv(w, 2, "V")), Costly(MutEv(w, 3, "V")) >>
+      [] OTHER -> << >>
+
+\* "aliasA": maps, catalogs and sequences of associations; a Seq holds keys
+ClsA(w, id) == IF w[id].kind = "Seq" THEN "K" ELSE "A"
+EvSetsAliasA(w) ==
+    CASE Len(w) = 0 -> << {E("GoMap", "New", 0, <<l>>, "") : l \in {<<>>, <<<<1, 1>>>>, <<<<2, 0>>, <<0, 1>>>>}},
+                          {E("GoArray", "New", 0, <<l>>, "A") : l \in {<<ACode(1, 1)>>, <<ACode(2, 0), ACode(0, 1)>>}} >>
+      [] Len(w) = 1 /\ w[1].kind = "GoMap" -> << {E(kk, "MakeFromMap", 0, <<1>>, "A") : kk \in {"Catalog", "Map"}} >>
+      [] Len(w) = 1 -> << {E(kk, "MakeFromArray", 0, <<1>>, "A") : kk \in {"Catalog", "Map", "List", "Array"}} >>
+      [] Len(w) = 2 -> << Costly(MutEv(w, 1, "A")), Costly(MutEv(w, 2, "A")), DeriveEv(w, 2, "A") >>
+      [] Len(w) = 3 -> << Costly(MutEv(w, 1, "A")), Costly(MutEv(w, 2, "A")), Costly(MutEv(w, 3, ClsA(w, 3))) >>
+      [] OTHER -> << >>
+
+----------------------------------------------------------------------------
+
+\* A sequence of event sets (each set homogeneous in the types of its
+\* arguments: TLC cannot compare an integer token with a pair token).
+EvSets(w) ==
+    CASE Family = "list"     -> << EventsList(w) >>
+      [] Family = "iter"     -> << EventsIter(w) >>
+      [] Family = "set"      -> << EventsSet(w) >>
+      [] Family = "algebra"  -> << EventsAlgebra(w) >>
+      [] Family = "stack"    -> << EventsStack(w) >>
+      [] Family \in {"catalog", "catalogfn"} -> << EventsAssoc("Catalog", w) >>
+      [] Family = "concat"   -> << EventsConcat(w), Costly(ConcatMut(w)) >>
+      [] Family = "map"      -> << EventsAssoc("Map", w) >>
+      [] Family = "merge"    -> << EventsMerge(w), Costly(MergeMut(w)) >>
+      [] Family = "queueseq" -> << EventsQueueSeq(w) >>
+      [] Family = "alias"    -> EvSetsAlias(w)
+      [] Family = "aliasA"   -> EvSetsAliasA(w)
+
+Init == world = <<>> /\ fuel = MaxFuel
+
+IsCostly(e) == e.ec \in {"$", "$V", "$K", "$A"}
+Plain(e) == IF IsCostly(e) THEN [e EXCEPT !.ec = IF e.ec = "$" THEN "" ELSE IF e.ec = "$V" THEN "V" ELSE IF e.ec = "$K" THEN "K" ELSE "A"] ELSE e
 
 Next ==
     /\ Small(world)
-    /\ \E e \in Events(world) :
-         \E o \in Gen(world, e) :
+    /\ \E i \in DOMAIN EvSets(world) : \E ce \in EvSets(world)[i] :
+         LET e == Plain(ce) IN
+         /\ IsCostly(ce) => fuel > 0
+         /\ fuel' = IF IsCostly(ce) THEN fuel - 1 ELSE fuel
+         /\ \E o \in Gen(world, e) :
             /\ world' = o.w
             /\ PrintT(ToJson([pre |-> world, e |-> e, post |-> o.w, p |-> o.p,
                               nd |-> (Relational(e) \/ Cardinality(Gen(world, e)) > 1)]))
 
-Spec == Init /\ [][Next]_world
+Spec == Init /\ [][Next]_<<world, fuel>>
 
 ----------------------------------------------------------------------------
 (* Properties of the model itself *)
@@ -258,7 +394,7 @@ TypeOK == WorldOK(world)
 
 \* every representative outcome is an accepted outcome; a panic changes nothing
 GenSound ==
-    \A e \in Events(world) : \A o \in Gen(world, e) :
+    \A i \in DOMAIN EvSets(world) : \A ce \in EvSets(world)[i] : LET e == Plain(ce) IN \A o \in Gen(world, e) :
         /\ Accepts(world, e, o)
         /\ o.p => o.w = world
 
